@@ -86,6 +86,7 @@ pub fn generate(t: &mut Tape, docs: Option<DocMode>, force_clean: bool) -> Gener
             max_defs: 3,
             importable: importable.clone(),
             schema_index: (i + 1) as u32,
+            rich: false,
         };
         let mut g = Gen::new(t, cfg);
         let m = g.schema(name);
@@ -100,6 +101,7 @@ pub fn generate(t: &mut Tape, docs: Option<DocMode>, force_clean: bool) -> Gener
         max_defs: 7,
         importable,
         schema_index: 0,
+        rich: false,
     };
     let mut g = Gen::new(t, cfg);
     let model = g.schema("main");
